@@ -1,6 +1,7 @@
 mod local;
 mod multi;
 mod rig;
+mod seq;
 mod util;
 
 fn main() {
@@ -14,6 +15,9 @@ fn main() {
     let code = match cmd {
         "multi" => multi::main(&rest),
         "local" => local::main(&rest),
+        "agg" => seq::agg_main(&rest),
+        "committee" => seq::committee_main(&rest),
+        "store" => seq::store_main(&rest),
         _ => {
             eprintln!("usage: hsverif <multi|...> [key=value ...]");
             2
